@@ -133,6 +133,30 @@ func c11Run(p c11Plan) *common.Fail {
 		if got := fromLibLData(l); !sameRLData(got, &want) {
 			return common.Failf("layout-decode-aliases-input", "fields decoded from %x change when that buffer is overwritten:\n now      %+v\n expected %+v", orig, *got, want)
 		}
+		// a receive loop that decodes every frame into the same message variable (cemi.Unpack(data, &msg)): what it handed
+		// on for the previous frame stays what it was when the next frame of the same kind is decoded, and when the
+		// next one is cut short
+		{
+			fresh, _ := common.RefEncodeCemi(c)
+			ld2 := *c.LData
+			ld2.TPDU = common.RTPDU{Numbered: !c.LData.TPDU.Numbered, Seq: 9, APCI: 2, Data: []byte{0x2a, 0x55, 0x66, 0x77}}
+			ld2.Src, ld2.Dst, ld2.C1, ld2.C2 = 0x7777, 0x6666, c.LData.C1^0x0c, c.LData.C2^0x70
+			ld2.Info = []byte{0x03, 0x01, 0x7f}
+			c2 := *c
+			c2.LData = &ld2
+			next, _ := common.RefEncodeCemi(&c2)
+			for _, second := range [][]byte{next, next[:len(next)-2], next[:4]} {
+				var loopVar cemi.Message
+				if _, err := cemi.Unpack(fresh, &loopVar); err != nil {
+					break
+				}
+				handedOn := loopVar
+				cemi.Unpack(second, &loopVar)
+				if l6 := ldataOf(handedOn); l6 == nil || !sameRLData(fromLibLData(l6), &want) {
+					return common.Failf("layout-decode-shared", "the message decoded from %x and handed on changed when %x (%d octets) was decoded into the same message variable:\n now      %s\n expected %+v", fresh, second, len(second), common.Show(handedOn), want)
+				}
+			}
+		}
 		// the fields are independent of each other: a relay that appends an element to the additional info it received
 		// (or octets to the payload) does not change any other field of the decoded frame
 		{
